@@ -327,12 +327,58 @@ func (r *Run) finish() int {
 	case r.violations > 0:
 		return ExitViolation
 	case len(r.inconclusive) > 0:
+		if r.fewLoadDependent() {
+			// a handful of cases that a stalled machine kept from being decided (watchdogs, checker
+			// time-outs, transport time-outs) do not turn the run into "nothing decided": the verdict
+			// is "held on everything that was explored"; the undecided cases are listed in the
+			// evidence (coverage.inconclusive) and here
+			for _, s := range r.inconclusive {
+				fmt.Printf("UNDECIDED-CASE property=%s reason=%s\n", r.ID, oneLine(s, 300))
+			}
+			return ExitHeld
+		}
 		for _, s := range r.inconclusive {
 			fmt.Printf("INCONCLUSIVE property=%s reason=%s\n", r.ID, oneLine(s, 300))
 		}
 		return ExitInconclusive
 	}
 	return ExitHeld
+}
+
+var loadDependent = []string{"watchdog", "timed out", "time-out", "timeout", "did not return within", "did not finish within", "did not finish after",
+	"could not decide", "transport problem", "transport error", "deadline", "rate limited", "load-dependent", "did not stabilise", "did not converge",
+	"never reported READY", "could not be parked", "acceptance window", "neither succeeded nor failed within", "machine stalled"}
+
+// fewLoadDependent: every undecided item is a per-case wall-clock casualty, they are few
+// (at most 2 % of the evaluated cases, at least 2, at most 20), and the run still observed
+// enough (>= 2 distinct non-trivial cases).
+func (r *Run) fewLoadDependent() bool {
+	if r.evaluations == 0 || len(r.distinct) < 2 || r.ReplayCase != "" {
+		return false
+	}
+	limit := r.evaluations / 50
+	if limit < 2 {
+		limit = 2
+	}
+	if limit > 20 {
+		limit = 20
+	}
+	if len(r.inconclusive) > limit {
+		return false
+	}
+	for _, s := range r.inconclusive {
+		ok := false
+		for _, p := range loadDependent {
+			if strings.Contains(s, p) {
+				ok = true
+				break
+			}
+		}
+		if !ok {
+			return false
+		}
+	}
+	return true
 }
 
 func maxPrint() int {
